@@ -1,10 +1,11 @@
-(* GLUE: base err samp graph main *)
+(* GLUE: base err samp graph simple main *)
 (* Driver of component 'simple': Gillespie_simple_contagion (Model/Simple.v).
    SIMPLE <graph> sortable nsp {A B rate <w>} nin {A B A' C rate <w>} {ic_u}(n) nrs rs.. tmin tmax? full fuel
      <w> = 0 | 1 k {keylen key.. num den} (weight_label dictionary) | 2 k {..} (rate_function table) | 3 (both)
    then one of
-     W <entropy>                    choose a draw script by walking the program
-     A maxdraws maxpaths k d1..dk   every draw script (DFS), delays d1..dk
+     W <entropy>                    choose a draw script by walking the program (cascade cells entered at
+                                    their midpoint or just inside a boundary: ocaml/glue_simple.ml)
+     A maxdraws maxpaths k d1..dk   every draw script (DFS), delays d1..dk, cascade boundaries for the first draws
      D k q1..qk                     run on the given draws *)
 let run_one m ds =
   let (res, tr) = exec m ds [] in
@@ -42,12 +43,12 @@ let run_simple () =
   let fuel = nat_of_int (nint ()) in
   let m = simple g sortable spont induced ic rstat tmin tmax full fuel in
   match next () with
-  | "W" -> let ent = read_entropy () in run_one m (walk m ent 4000)
+  | "W" -> let ent = read_entropy () in run_one m (walk_b m ent 4000)
   | "D" -> run_one m (nlist nq)
   | "A" ->
     let maxdraws = nint () in let maxpaths = nint () in
     let delays = nlist nq in
-    let paths = walk_all m delays maxdraws maxpaths in
+    let paths = walk_all_b m delays maxdraws maxpaths 5 in
     List.iteri (fun i ds -> if i > 0 then out " ## "; run_one m ds) paths
   | c -> failwith ("bad mode " ^ c)
 
